@@ -29,6 +29,12 @@ def _verdict_operand(m: Module, cmp_: ast.Compare):
     for o in ops:
         if isinstance(o, ast.Name) and o.id in Z3_VERDICTS and z3_imported(m, o.id):
             return o.id
+    # membership tests against collections of verdicts: `x in (sat, unknown)`
+    for o in ops:
+        if isinstance(o, (ast.Tuple, ast.List, ast.Set)):
+            for e in o.elts:
+                if isinstance(e, ast.Name) and e.id in Z3_VERDICTS and z3_imported(m, e.id):
+                    return "collection:" + e.id
     return None
 
 
@@ -89,8 +95,8 @@ def check_verdict_sites(repo: Repo, rep: Report, rule: str, modules=("sevm", "ch
                     continue
                 n += 1
                 text = src(c)
-                if len(c.ops) != 1 or not isinstance(c.ops[0], (ast.Eq, ast.NotEq)):
-                    rep.bad(rule, m, c, text, "unrecognised comparison with a solver verdict")
+                if len(c.ops) != 1 or not isinstance(c.ops[0], (ast.Eq, ast.NotEq)) or v.startswith("collection:"):
+                    rep.bad(rule, m, c, text, "a solver answer is tested by something other than `== unsat` / `!= unsat`: answers outside the tested set ('err', unknown, timeout) fall on the wrong side")
                     continue
                 eq = isinstance(c.ops[0], ast.Eq)
                 if _in_certainty_pair(m, c):
